@@ -34,10 +34,10 @@ Act(op) == CASE op = "T.Fold" -> "Fold" [] op = "T.Check" -> "Check" [] op = "T.
              [] op = "T.Pass" -> "Pass" [] op = "T.Bet" -> "Bet" [] op = "T.Raise" -> "Raise" [] OTHER -> "?"
 
 \* what the recorded line shows of the table, as the model's record (hidden: inPos, running, the ready group's bookkeeping)
-Shown(t) == [sm |-> [t.sm EXCEPT !.crashed = FALSE], pl |-> t.pl, closed |-> (t.status = "closed"), status |-> t.status, count |-> t.count, hasG |-> t.hasG,
+Shown(t) == [opt |-> t.opt, sm |-> [t.sm EXCEPT !.crashed = FALSE], pl |-> t.pl, closed |-> (t.status = "closed"), status |-> t.status, count |-> t.count, hasG |-> t.hasG,
              g |-> IF t.hasG THEN Norm(t.tg.g) ELSE NULL]
 ObsG(T) == ToGs(T.G, T.deck)
-Obs(T) == [sm |-> ToM(T.sm), pl |-> ToPl(T.players), closed |-> (T.status = "closed"), status |-> T.status, count |-> T.count, hasG |-> T.hasG,
+Obs(T, opt) == [opt |-> ToOpt(opt), sm |-> ToM(T.sm), pl |-> ToPl(T.players), closed |-> (T.status = "closed"), status |-> T.status, count |-> T.count, hasG |-> T.hasG,
            g |-> IF T.hasG THEN ObsG(T) ELSE NULL]
 PwOf(g) == [i \in Seats(g) |-> g.P[i].comb]
 Oracle(T) ==
@@ -53,6 +53,9 @@ ModelStep(t0, ln) ==
     [] ln.op = "T.Reserve" -> TbReserve(t0, ln.seat)
     [] ln.op = "T.Activate" -> TbActivate(t0, ln.seat, o)
     [] ln.op = "T.Start" -> TbStart(t0, o)
+    [] ln.op = "T.Nop" -> TR(t0, "")
+    [] ln.op = "T.SetAnte" -> TbSetAnte(t0, ln.x)
+    [] ln.op = "T.SetBlinds" -> TbSetBlinds(t0, ln.blinds[1], ln.blinds[2], ln.blinds[3])
     [] ln.op = "T.Ready" -> TbReady(t0, ln.id, o)
     [] ln.op = "T.Pay" -> TbPay(t0, ln.id, o)
     [] Act(ln.op) # "?" -> TbAction(t0, ln.id, Act(ln.op), ln.x, o)
@@ -70,8 +73,8 @@ Bad(t0, ln) ==
 Bump(cc, S) == [k \in (DOMAIN cc) \cup S |-> (IF k \in DOMAIN cc THEN cc[k] ELSE 0) + (IF k \in S THEN 1 ELSE 0)]
 Init == l = 1 /\ tb = NewTable(ToOpt(Trace[1].opt)) /\ viol = {} /\ drift = {} /\ cnt = [k \in {} |-> 0]
 \* re-synchronise the model with the recorded table (after a drift): the hidden parts come from the model
-Resync(t1, T) ==
-  [t1 EXCEPT !.sm = ToM(T.sm), !.pl = ToPl(T.players), !.status = T.status, !.count = T.count, !.hasG = T.hasG,
+Resync(t1, T, opt) ==
+  [t1 EXCEPT !.opt = ToOpt(opt), !.sm = ToM(T.sm), !.pl = ToPl(T.players), !.status = T.status, !.count = T.count, !.hasG = T.hasG,
              !.tg = IF T.hasG THEN Deliver(t1.tg, ObsG(T), PwOf(ObsG(T))) ELSE t1.tg]
 Step ==
   /\ l < Len(Trace) /\ l' = l + 1
@@ -79,12 +82,15 @@ Step ==
      IF ln.kind = "reset"
      THEN tb' = NewTable(ToOpt(ln.opt)) /\ viol' = viol /\ drift' = drift /\ cnt' = Bump(cnt, {"runs"})
      ELSE LET r == ModelStep(tb, ln)
-              ok == ~ln.stuck /\ Shown(r.tb) = Obs(ln.T) /\ ModelErr(r.res) = ErrClass(ln.err)
+              ok == ~ln.stuck /\ Shown(r.tb) = Obs(ln.T, ln.opt) /\ ModelErr(r.res) = ErrClass(ln.err)
           IN /\ viol' = viol \cup {<<l + 1, nm>> : nm \in {x \in Bad(tb, ln) : Cardinality({w \in viol : w[2] = x}) < MaxViol}}
              /\ drift' = IF ok \/ Cardinality(drift) >= MaxViol THEN drift ELSE drift \cup {l + 1}
-             /\ tb' = IF ok THEN r.tb ELSE Resync(r.tb, ln.T)
+             /\ tb' = IF ok THEN r.tb ELSE Resync(r.tb, ln.T, ln.opt)
              /\ cnt' = Bump(cnt, {"table.calls", "table." \o ln.op \o (IF ln.err = "" THEN "" ELSE ".refused")}
                                  \cup (IF NewHand(tb, ln.T) THEN {"table.handsStarted", "C08.positions.viaTable"} ELSE {})
+                                 \cup (IF NewHand(tb, ln.T) /\ tb.status = "idle" /\ tb.count > 0 THEN {"table.restartedFromIdle"} ELSE {})
+                                 \cup (IF NewHand(tb, ln.T) /\ tb.count > 0 /\ <<ln.T.G.meta.ante, ln.T.G.meta.sb, ln.T.G.meta.bb>> # <<tb.tg.g.meta.ante, tb.tg.g.meta.sb, tb.tg.g.meta.bb>>
+                                       THEN {"table.newBlindLevel"} ELSE {})
                                  \cup (IF ln.T.hasClosed THEN {"table.handsClosed"} ELSE {})
                                  \cup (IF ln.T.status = "closed" /\ tb.status # "closed" THEN {"table.closed"} ELSE {})
                                  \cup (IF ln.stuck THEN {"table.stuck"} ELSE {}))
